@@ -33,6 +33,8 @@ func init() {
 			kvPutGrowsStore(r)
 			kvInsertIntoWritableHead(r)
 			kvEntrySizeFormula(r)
+			c11TableWritesWholeHeader(r)
+			c11IdleTableRemovedByItsOwnIndex(r)
 			c12ResumeRestartsNextTable(r)
 			engineBuiltFromEffectiveConfig(r, "engine-built-from-effective-config")
 		},
